@@ -106,7 +106,89 @@ pub fn month_day_from_date<S: Src>(s: &mut S, ylo: i32, yhi: i32) {
     core::mem::forget(date);
 }
 
+/// until / since / add count whole months from the first of the month, whatever the hidden reference day
+pub fn year_month_arith<S: Src>(s: &mut S, ya: i32, yb: i32) {
+    use temporal_rs::options::{DifferenceSettings, Unit};
+    let a = any_date_in(s, ya, ya);
+    let b = any_date_in(s, yb, yb);
+    let explicit = s.bool(); // the low-level constructor's explicit reference day vs the canonical day 1
+    let (da, db) = if explicit { (Some(a.day), Some(b.day)) } else { (None, None) };
+    let (Ok(x), Ok(y)) = (
+        PlainYearMonth::new_with_overflow(a.year, a.month, da, Calendar::default(), ArithmeticOverflow::Reject),
+        PlainYearMonth::new_with_overflow(b.year, b.month, db, Calendar::default(), ArithmeticOverflow::Reject),
+    ) else {
+        vassert!(s, "C18.ym_arith.in_range_year_month_constructs", false);
+        return;
+    };
+    let months = (b.year as i64 - a.year as i64) * 12 + (b.month as i64 - a.month as i64);
+    let by_year = s.bool();
+    let mut st = DifferenceSettings::default();
+    st.largest_unit = Some(if by_year { Unit::Year } else { Unit::Month });
+    // week and day units are refused, also between equal year-months
+    let refused = s.u8_in(0, 2);
+    if refused != 0 {
+        let u = if refused == 1 { Unit::Week } else { Unit::Day };
+        let mut bad = DifferenceSettings::default();
+        if s.bool() {
+            bad.largest_unit = Some(u);
+        } else {
+            bad.smallest_unit = Some(u);
+        }
+        vcover!(s, "C18.ym_arith.refused_unit_between_equal_values", months == 0);
+        vassert!(s, "C18.ym_arith.week_and_day_units_are_refused", x.until(&y, bad).is_err());
+        core::mem::forget((x, y));
+        return;
+    }
+    vcover!(s, "C18.ym_arith.reference_days_in_reverse_order", explicit && months > 0 && a.day > b.day);
+    match x.until(&y, st) {
+        Ok(d) => {
+            let got = d.years().as_inner() as i64 * 12 + d.months().as_inner() as i64;
+            vassert!(s, "C18.ym_arith.until_counts_whole_months_from_the_first", got == months && d.weeks().as_inner() == 0.0 && d.days().as_inner() == 0.0);
+            if by_year {
+                vassert!(s, "C18.ym_arith.until_is_balanced", (d.months().as_inner() as i64).abs() < 12);
+            }
+            core::mem::forget(d);
+        }
+        Err(_) => vassert!(s, "C18.ym_arith.until_succeeds", false),
+    }
+    core::mem::forget((x, y));
+}
+
+/// add of whole years and months counts from the first of the month, whatever the hidden reference day
+pub fn year_month_add<S: Src>(s: &mut S, ylo: i32, yhi: i32) {
+    use temporal_rs::primitive::FiniteF64;
+    use temporal_rs::Duration;
+    let a = any_date_in(s, ylo, yhi);
+    let explicit = s.bool();
+    let Ok(x) = PlainYearMonth::new_with_overflow(a.year, a.month, if explicit { Some(a.day) } else { None }, Calendar::default(), ArithmeticOverflow::Reject) else {
+        vassert!(s, "C18.ym_arith.in_range_year_month_constructs", false);
+        return;
+    };
+    let sign = if s.bool() { 1i32 } else { -1 };
+    let (yrs, mos) = (sign * s.i32_in(0, 1), sign * s.i32_in(0, 13));
+    let reject = s.bool();
+    let f = |v: i32| FiniteF64::from(v);
+    let z = FiniteF64::default();
+    let Ok(dur) = Duration::new(f(yrs), f(mos), z, z, z, z, z, z, z, z) else { return };
+    let ov = if reject { ArithmeticOverflow::Reject } else { ArithmeticOverflow::Constrain };
+    // reference: whole years and months from the first of the month (which exists in every month)
+    let mi = (a.year * 12 + (a.month as i32 - 1)) + yrs * 12 + mos;
+    let (wy, wm) = (mi.div_euclid(12), (mi.rem_euclid(12) + 1) as u8);
+    vcover!(s, "C18.ym_arith.add_with_reference_day_31_under_reject", explicit && a.day == 31 && reject && mos == 1);
+    match x.add(&dur, ov) {
+        Ok(r) => {
+            vassert!(s, "C18.ym_arith.add_counts_from_the_first_of_the_month", r.iso_year() == wy && r.iso_month() == wm);
+            core::mem::forget(r);
+        }
+        Err(_) => vassert!(s, "C18.ym_arith.add_succeeds_inside_the_range", false),
+    }
+    core::mem::forget((x, dur));
+}
+
 crate::harnesses! { REGISTRY;
+    c18_year_month_add_2020 [unwind 15] = |s| year_month_add(s, 2019, 2021);
+    c18_year_month_until_2020 [unwind 15] = |s| year_month_arith(s, 2020, 2021);
+    c18_year_month_since_2020 [unwind 15] = |s| year_month_arith(s, 2021, 2020);
     c18_year_month_routes_2000 [unwind 15] = |s| year_month_routes(s, 1999, 2001);
     c18_year_month_limits [unwind 15] = |s| year_month_limits(s);
     c18_month_day [unwind 15] = |s| month_day(s);
